@@ -10,6 +10,8 @@ import YardlModel.Plan
 import YardlModel.SyntaxJson
 import YardlModel.Evolution
 import YardlModel.Topo
+import YardlModel.Names
+import YardlGenerated.Pipeline
 
 /-! Line-protocol driver for the wire engine: one JSON request per line on stdin, one JSON
     reply per line on stdout. -/
@@ -526,6 +528,15 @@ def handle (j : Json) : Except String Json := do
     match Topo.sort d (deps.length + 2) roots with
     | some l => pure (Json.mkObj [("order", Json.arr (l.map jn).toArray)])
     | none => pure (Json.mkObj [("cycle", Json.bool true)])
+  | "ident" =>
+    -- identifier derived by a back end from a case-converted name (reserved tables regenerated from source)
+    let lang ← (← j.getObjVal? "lang").getStr?
+    let suffix ← (← j.getObjVal? "suffix").getStr?
+    let cased ← (← j.getObjVal? "cased").getStr?
+    let table ← match lang with
+      | "cpp" => pure Generated.reserved_cpp | "python" => pure Generated.reserved_python | "matlab" => pure Generated.reserved_matlab
+      | l => throw s!"bad language {l}"
+    pure (Json.mkObj [("ident", Json.str (Names.ident table suffix cased))])
   | "narrow" =>
     let b ← jNat (← j.getObjVal? "bits")
     pure (Json.mkObj [("f32", jn (Json.narrow b))])
